@@ -294,6 +294,31 @@ func CorpusHistories(scratch string, names map[string]bool) ([]*History, []strin
 			}
 			return nil
 		}, func(g *Genesis) { easyParams(g); g.Params.MinTrxGas = 100000 }},
+		// the EVM gas pool of a block (25,000,000): the second transaction whose gas LIMIT no longer fits is
+		// refused ("gas limit reached") and leaves nothing; the pool starts afresh with every block — also on a
+		// node restarted in between
+		{"evm-block-gas-pool", 2, 3, 9, func(s *Sim, h int64) []*TxSpec {
+			call := func(from Key, gas uint64, note string) *TxSpec {
+				t := s.baseTx(6, from, s.contracts[0])
+				t.Data, t.Gas, t.Note = word([]byte{byte(h)}), gas, note
+				return t
+			}
+			switch h {
+			case 2:
+				t := s.baseTx(6, s.User(0), make([]byte, 20))
+				t.Data, t.Gas, t.Note = deployer(progStore(s.rng)), 400000, "script-deploy"
+				return []*TxSpec{t}
+			case 4, 7:
+				if len(s.contracts) >= 1 {
+					return []*TxSpec{call(s.User(0), 25000000, "script-call-gas-25M"), call(s.User(1), 25000000, "script-call-gas-25M-second"), call(s.User(2), 100000, "script-call-after-pool-refusal")}
+				}
+			case 5:
+				if len(s.contracts) >= 1 {
+					return []*TxSpec{call(s.User(1), 15000000, "script-call-gas-15M"), call(s.User(2), 15000000, "script-call-gas-15M-second")}
+				}
+			}
+			return nil
+		}, func(g *Genesis) { easyParams(g) }},
 		// an account with enough own stake to be a candidate, but outside the selected validator set
 		// (the set is full), submits a parameter proposal: only current validators may
 		{"candidate-outside-the-set-proposes", 2, 2, 9, func(s *Sim, h int64) []*TxSpec {
